@@ -61,13 +61,13 @@ def run_execution(ctx, cfg):
     orig_draw = flow.sample_and_log_prob
 
     def forced_draw(n, xp=None):
-        idx = (menu[init] * ((n // N) + 1))[:n]
+        # the earlier (quiet) call on the same sampler object always starts from the flat population, so that it completes
+        idx = (menu["flat" if quiet["on"] else init] * ((n // N) + 1))[:n]
         return flow._out(flow.xs[idx]), flow._out(flow.logq[idx])
 
+    quiet = {"on": False}
     flow.sample_and_log_prob = forced_draw
     state = {"beta_seen": []}
-
-    quiet = {"on": False}
 
     def teleport(z, logp, inv):
         if quiet["on"]:
